@@ -1,11 +1,12 @@
 """Termination and progress of the recursive-descent parser (C15) on the real a816/parse/parser_states.py, for EVERY token
 list: arbitrary length, arbitrary token types and texts (see vf/specs/parsemodel.py for the clauses)."""
 from a816.parse.errors import ParserSyntaxError
+from a816.parse.tokens import TokenType
 from vf.contracts.rt import assume, check, ghost
 from vf.specs.parsemodel import remaining
 
 
-def parser_function_contract(p, fn, rank, delta, eof_raises, no_include, lenient):
+def parser_function_contract(p, fn, rank, delta, eof_raises, no_include, lenient, consumes_all=False):
     """fn(p) returns having consumed at least `delta` tokens, or raises ParserSyntaxError -- nothing else; every call it makes
     decreases the measure (call-site obligations of the callee models) and every loop it runs has a decreasing variant."""
     n = len(p.tokens)
@@ -26,6 +27,9 @@ def parser_function_contract(p, fn, rank, delta, eof_raises, no_include, lenient
         check("fails_with_a_syntax_error_only", lenient)
         return
     check("progress", p.pos >= pos0 + delta)
+    if consumes_all:
+        # the top-level parser returns only at the end of the input: a token it cannot place (a stray `}` ...) is an error, never a silent stop
+        check("whole_input_consumed", p.current().type == TokenType.EOF)
     if eof_raises:
         check("rejects_end_of_input", pos0 < n)
 
